@@ -50,7 +50,47 @@ func skipsEmptyOnly(c *Ctx, f *ssa.Function, b *ssa.BasicBlock, spawn *ssa.Basic
 	return false
 }
 
+// checkLookupsConcurrent (R18.5, also run by C08 as part of R08.1): the per-address lookups of the reverse-DNS fan-out overlap –
+// no goroutine holds the mutex that its siblings need while it waits for the resolver. A lookup made under the shared lock
+// serialises the fan-out: the call then takes the SUM of the lookup times (each up to the lookup timeout) instead of one.
+func checkLookupsConcurrent(c *Ctx, rule string) {
+	R := c.R
+	f := c.P.Func("reversedns.GetReverseDnsForIPs")
+	if f == nil {
+		R.Fail(rule, "reversedns.GetReverseDnsForIPs#anchor", 0, "", "anchor reversedns.GetReverseDnsForIPs no longer resolves")
+		return
+	}
+	n := 0
+	for _, sp := range spawnSites(f) {
+		cl := spawnedClosure(c.P, sp)
+		if cl == nil {
+			continue
+		}
+		for _, ip := range InlinedPaths(c.P, cl, inlineOpts{pkg: core.FuncPkg(cl), stop: func(h *ssa.Function) bool { return h.Signature.Results().Len() == 2 }}) {
+			for _, ev := range ip.Events {
+				call, ok := ev.Instr.(*ssa.Call)
+				if !ok || ev.Kind != "call" {
+					continue
+				}
+				h := call.Common().StaticCallee()
+				if h == nil || !core.InModule(h) || h.Signature.Results().Len() != 2 {
+					continue
+				}
+				n++
+				key := core.FuncName(cl) + "#lookup-not-under-lock"
+				if ev.Locked {
+					R.FailPath(rule, key, call.Pos(), core.FuncName(cl), "the lookup "+ev.Callee+" is made while the goroutine holds the mutex its siblings need: the fan-out is serialised and the call is bounded by the sum of the lookup timeouts, not by one", ip.Desc)
+				} else {
+					R.OK(rule, key, call.Pos(), core.FuncName(cl), "the lookup runs outside the shared lock")
+				}
+			}
+		}
+	}
+	R.Floor(rule+":fanout-lookups", n, 1)
+}
+
 func runC18(c *Ctx) {
+	checkLookupsConcurrent(c, "R18.5")
 	R := c.R
 	// ---- R18.1 / R18.2 writer
 	f := c.P.Func("reversedns.GetReverseDnsForIPs")
